@@ -1028,6 +1028,9 @@ class LfSystem:
         elif obs[0] == "ok" and refusal:
             acc.fail("likelihood function: a rule whose upper bound lies below the lower bound of one of its scopes was accepted",
                      {"kind": "lf", "config": self.config, "hist": hist_fn(), "op": op}, {})
+        elif obs[0] != "ok" and op[0] in ("optimise", "calc_step") and obs[1] == "ValueError" and "finite" in obs[2]:
+            # all lengths held at zero with differing sequences: lnL is -inf and the optimiser refuses to start (documented)
+            acc.outcome(("lf", "optimise refused: lnL not finite"))
         elif obs[0] != "ok":
             acc.fail(f"likelihood function: {self._cls(op)} raised {obs[1]}",
                      {"kind": "lf", "config": self.config, "hist": hist_fn(), "op": op}, {"error": obs[2]})
